@@ -216,11 +216,22 @@ def mapM' {α β} (f : α → Option β) : List α → Option (List β)
   | [] => some []
   | x :: xs => match f x, mapM' f xs with | some y, some ys => some (y :: ys) | _, _ => none
 
+/-- `pack_message(message, "tcp")` given the packed message: `struct.pack("!H", len(packed)) + packed`;
+    `none` = struct.error, the length does not fit the 16-bit prefix (nothing in layers/dns.py catches it: finding F-C26b) -/
+def frameC (b : Bytes) : Option Bytes := if b.length < 65536 then some (frame b) else none
+
+/-- the re-encodings `state_query` is about to send for one TCP segment (before the length prefix is put in front) -/
+def reencodings (I : Idna) (data : Bytes) : Option (List Bytes) :=
+  mapM' (pack I) (unpackAll I (tcpFrames data.length data).1).1
+
 def forwardTcp (I : Idna) (data : Bytes) : Fwd :=
   let fr := tcpFrames data.length data
   let ms := unpackAll I fr.1
   match mapM' (pack I) ms.1 with
   | none => .crashed
-  | some outs => .done (outs.map frame) (fr.2 || ms.2)
+  | some outs =>
+    match mapM' frameC outs with
+    | none => .crashed                       -- a re-encoded message is longer than 65535 bytes: struct.error leaves the layer
+    | some fs => .done fs (fr.2 || ms.2)
 
 end MitmVerif.C26
